@@ -67,3 +67,46 @@ Proof.
   rewrite (built_nosuffix V veqb veqb_eq nfb1 pvs A1 Hb Hs B1 h Hh), (built_nosuffix V veqb veqb_eq nfb2 pvs A2 Hb Hs B2 h Hh).
   auto.
 Qed.
+
+(* ---- the same for EVERY character-wise automaton of the standard kind ------------------------- *)
+From DV Require Import Model.Utf8 Model.CwBuild Model.CwSearch Proofs.Utf8Props Proofs.CwCert Proofs.CwBuildCert.
+
+Section CwBuilt.
+Variable V : Type.
+Variable veqb : V -> V -> bool.
+Hypothesis veqb_eq : forall a b, veqb a b = true <-> a = b.
+Variables (nfb : N) (pvs : list (list N * V)) (A : cw_automaton V).
+Hypothesis pats_size : 4 * total_len V pvs <= U32_MAX - 1.
+Hypothesis BUILT : cw_build_with_values V Standard nfb pvs = Ok A.
+
+Theorem cw_built_cert : cw_cert_ok veqb A pvs = true.
+Proof. exact (cw_build_cert_lemma V veqb (veqb_refl V veqb veqb_eq) nfb pvs A pats_size BUILT). Qed.
+
+Theorem cw_built_overlapping cs : Forall scalar cs ->
+  cw_find_overlapping_iter V A (encode_utf8 cs) = Ok (map (to_bytes V cs) (spec_overlapping V pvs cs)).
+Proof. exact (cw_overlapping_correct_lemma V veqb (veqb_sound V veqb veqb_eq) A pvs cw_built_cert cs). Qed.
+
+Theorem cw_built_find cs : Forall scalar cs ->
+  cw_find_iter V A (encode_utf8 cs) = Ok (map (to_bytes V cs) (spec_find V pvs cs)).
+Proof. exact (cw_find_correct_lemma V veqb (veqb_sound V veqb veqb_eq) A pvs cw_built_cert cs). Qed.
+
+Theorem cw_built_nosuffix cs : Forall scalar cs ->
+  cw_find_overlapping_no_suffix_iter V A (encode_utf8 cs) = Ok (map (to_bytes V cs) (spec_nosuffix V pvs cs)).
+Proof. exact (cw_nosuffix_correct_lemma V veqb (veqb_sound V veqb veqb_eq) A pvs cw_built_cert cs). Qed.
+End CwBuilt.
+
+Theorem cw_built_nfb_irrelevant (V : Type) (veqb : V -> V -> bool) (veqb_eq : forall a b, veqb a b = true <-> a = b)
+  nfb1 nfb2 (pvs : list (list N * V)) A1 A2 :
+  4 * total_len V pvs <= U32_MAX - 1 ->
+  cw_build_with_values V Standard nfb1 pvs = Ok A1 -> cw_build_with_values V Standard nfb2 pvs = Ok A2 ->
+  forall cs, Forall scalar cs ->
+    cw_find_overlapping_iter V A1 (encode_utf8 cs) = cw_find_overlapping_iter V A2 (encode_utf8 cs)
+    /\ cw_find_iter V A1 (encode_utf8 cs) = cw_find_iter V A2 (encode_utf8 cs)
+    /\ cw_find_overlapping_no_suffix_iter V A1 (encode_utf8 cs) = cw_find_overlapping_no_suffix_iter V A2 (encode_utf8 cs).
+Proof.
+  intros Hs B1 B2 cs Hc.
+  rewrite (cw_built_overlapping V veqb veqb_eq nfb1 pvs A1 Hs B1 cs Hc), (cw_built_overlapping V veqb veqb_eq nfb2 pvs A2 Hs B2 cs Hc).
+  rewrite (cw_built_find V veqb veqb_eq nfb1 pvs A1 Hs B1 cs Hc), (cw_built_find V veqb veqb_eq nfb2 pvs A2 Hs B2 cs Hc).
+  rewrite (cw_built_nosuffix V veqb veqb_eq nfb1 pvs A1 Hs B1 cs Hc), (cw_built_nosuffix V veqb veqb_eq nfb2 pvs A2 Hs B2 cs Hc).
+  auto.
+Qed.
